@@ -366,7 +366,7 @@ class Oscar(BaseStorer):
             "y": "%g",
             "z": "%g",
             "mass": "%g",
-            "p0": "%.9g",
+            "E": "%.9g",
             "px": "%.9g",
             "py": "%.9g",
             "pz": "%.9g",
